@@ -417,51 +417,37 @@ def run_parts_and_rsp(report, rng, n):
 
 
 def run_field_table(report):
-    """G1: every FontConfig field is written, popped, flagged and passed on (ast of config.py)."""
-    import ast
+    """G1: every FontConfig field is written by config.write, read back by config.load (from the file when no flag is
+    given), has a command-line flag and is handed on -- observed by calling the real functions with probe values
+    (harness/config_probe.py, the same observation Generated/ConfigPaths.v is made from; until session 4 this was an
+    ast walk over config.py, which a behaviour-preserving rewrite of load() made crash)."""
+    from harness.tables import config_paths
 
-    src = (common.SRC / "nanoemoji" / "config.py").read_text()
-    tree = ast.parse(src)
-    from nanoemoji import config as cfgmod
-
-    fields = [f for f in cfgmod.FontConfig._fields]
-    derived = {"source_names"}
-    struct = {"axes": "axis", "masters": "master"}
-    written, popped, flagged, passed = set(), set(), set(), set()
-    for node in ast.walk(tree):
-        if isinstance(node, ast.FunctionDef) and node.name == "write":
-            for sub in ast.walk(node):
-                if isinstance(sub, ast.Dict):
-                    written.update(k.value for k in sub.keys if isinstance(k, ast.Constant) and isinstance(k.value, str))
-        if isinstance(node, ast.FunctionDef) and node.name == "load":
-            for sub in ast.walk(node):
-                if isinstance(sub, ast.Call) and getattr(sub.func, "id", None) == "_pop_flag":
-                    popped.add(sub.args[1].value)
-                if isinstance(sub, ast.Call) and isinstance(sub.func, ast.Attribute) and sub.func.attr == "pop" and sub.args and isinstance(sub.args[0], ast.Constant):
-                    popped.add(sub.args[0].value)
-                if isinstance(sub, ast.Call) and getattr(sub.func, "id", None) == "FontConfig":
-                    passed.update(k.arg for k in sub.keywords)
-        if isinstance(node, ast.Call) and isinstance(node.func, ast.Attribute) and node.func.attr.startswith("DEFINE_") and node.args and isinstance(node.args[0], ast.Constant):
-            flagged.add(node.args[0].value)
+    try:
+        out = config_paths.probe()
+    except Exception as e:  # noqa
+        report.violation("config_field_table", dict(kind="table", problems=[f"the configuration probe did not run: {e}"]), found_input=False)
+        return
     problems = []
-    for f in fields:
-        if f in derived:
-            if f not in passed:
-                problems.append(f"{f}: not passed to FontConfig()")
+    for r in out["rows"]:
+        f = r["name"]
+        if f in out["structured"]:
+            if not out["structured"][f]:
+                problems.append(f"{f}: an axis/master table does not come out of config.load or does not survive write -> load")
             continue
-        key = struct.get(f, f)
-        if key not in written:
+        if not r["written"]:
             problems.append(f"{f}: not written by config.write")
-        if key not in popped:
-            problems.append(f"{f}: not read by config.load")
-        if f not in passed:
-            problems.append(f"{f}: not passed to FontConfig()")
-        if f not in struct and f not in flagged:
+        if not r["loaded"]:
+            problems.append(f"{f}: not read from the file by config.load")
+        if not r["passed"]:
+            problems.append(f"{f}: a flag value is not handed on by config.load (flag over file)")
+        if not r["flag"]:
             problems.append(f"{f}: no command-line flag")
-    report.notes["config_field_table"] = dict(fields=len(fields), written=len(written), popped=len(popped), flagged=len(flagged), passed=len(passed))
-    report.count(("table", tuple(fields)), True)
+    report.notes["config_field_table"] = dict(fields=len(out["rows"]), written=sum(r["written"] for r in out["rows"]), loaded=sum(r["loaded"] for r in out["rows"]),
+                                              flagged=sum(bool(r["flag"]) for r in out["rows"]), passed=sum(r["passed"] for r in out["rows"]), probe_notes=out["notes"])
+    report.count(("table", tuple(r["name"] for r in out["rows"])), True)
     if problems:
-        report.violation("config_field_table", dict(kind="table", problems=problems), found_input=False)
+        report.violation("config_field_table", dict(kind="table", problems=problems, probe_notes=out["notes"]), found_input=True)
 
 
 def run_cli_steps(report, rng):
